@@ -667,10 +667,7 @@ impl TypeSpace {
                                 metadata: Some(metadata),
                                 ..
                             }),
-                        ) => metadata
-                            .title
-                            .clone()
-                            .map_or(Name::Unknown, Name::Required),
+                        ) => metadata.title.clone().map_or(Name::Unknown, Name::Required),
                         (RefKey::Root, _) => Name::Unknown,
                     };
                     self.convert_ref_type(type_name, schema, type_id)?
@@ -828,14 +825,42 @@ impl TypeSpace {
             .and_then(|m| m.title.as_ref())
             .is_some();
 
-        if root_type {
+        // For a self-referential root type schemars also lists the root among
+        // the definitions, under its title. The root then *is* that
+        // definition rather than a second type of the same name.
+        let root_def = root_type
+            .then(|| {
+                let title = schema.metadata.as_ref()?.title.as_ref()?;
+                let mut untitled = schema.clone();
+                if let Some(metadata) = untitled.metadata.as_mut() {
+                    metadata.title = None;
+                    if **metadata == Metadata::default() {
+                        untitled.metadata = None;
+                    }
+                }
+                defs.iter()
+                    .find_map(|(key, def_schema)| match (key, def_schema) {
+                        (RefKey::Def(name), Schema::Object(def_object))
+                            if name == title && def_object == &untitled =>
+                        {
+                            Some(key.clone())
+                        }
+                        _ => None,
+                    })
+            })
+            .flatten();
+
+        if root_type && root_def.is_none() {
             defs.push((RefKey::Root, schema.into()));
         }
 
         self.add_ref_types_impl(defs)?;
 
         if root_type {
-            Ok(self.ref_to_id.get(&RefKey::Root).cloned())
+            Ok(self
+                .ref_to_id
+                .get(root_def.as_ref().unwrap_or(&RefKey::Root))
+                .cloned())
         } else {
             Ok(None)
         }
